@@ -56,15 +56,22 @@ Lemma nprox_nred sx dim : (0 < length sx)%nat ->
   match dim with None => True | Some ds => NoDup (map (fun d => d mod Z.of_nat (length sx)) ds) end ->
   nprox sx dim = nred sx (norm_dims (Z.of_nat (length sx)) dim).
 Proof.
-  intros Hl Hd. rewrite nred_P. unfold nprox, norm_dims. destruct dim as [ds|].
-  - set (nd := Z.of_nat (length sx)) in *. assert (Hnd : 0 < nd) by lia.
-    induction ds as [|d r IH]; cbn [map fold_right].
-    + rewrite P_nil. reflexivity.
-    + inversion Hd as [|? ? Hn Hr]; subst.
-      rewrite P_step; [|exact Hn|pose proof (Z.mod_pos_bound d nd Hnd); lia].
-      rewrite Z.sub_0_r. f_equal. apply IH. exact Hr.
-  - symmetry. apply P_all. intros i Hi. apply zrange_In. lia.
+  intros Hl Hd. rewrite nred_P.
+  assert (Hall : numel sx = P 0 sx (zrange (Z.of_nat (length sx)))).
+  { symmetry. apply P_all. intros i Hi. apply zrange_In. lia. }
+  destruct dim as [[|d0 r0]|]; [exact Hall| |exact Hall].
+  unfold nprox, norm_dims. set (ds := d0 :: r0) in *. clearbody ds.
+  set (nd := Z.of_nat (length sx)) in *. assert (Hnd : 0 < nd) by lia.
+  induction ds as [|d r IH]; cbn [map fold_right].
+  - rewrite P_nil. reflexivity.
+  - inversion Hd as [|? ? Hn Hr]; subst.
+    rewrite P_step; [|exact Hn|pose proof (Z.mod_pos_bound d nd Hnd); lia].
+    rewrite Z.sub_0_r. f_equal. apply IH. exact Hr.
 Qed.
+
+(* the pre-repair count (empty product = 1 for dim=()) differs from what forward divides by *)
+Lemma nprox_legacy_refuted : exists sx, nprox_legacy sx (Some []) <> nred sx (norm_dims (Z.of_nat (length sx)) (Some [])).
+Proof. exists [2; 3]. vm_compute. discriminate. Qed.
 
 (* every output of the reduction sums exactly nred elements: torch.mean divides by the number of reduced elements *)
 Lemma red_indices_length sx dims oflat : length (red_indices sx dims oflat) = Z.to_nat (nred sx dims).
